@@ -137,11 +137,11 @@ Proof.
   destruct (Z.eqb_spec a (addr (vw t) i)) as [->|]; [|reflexivity]. exfalso. apply (H i); [left; reflexivity|reflexivity].
 Qed.
 
-Theorem assign_op_correct o t e m : wfv (vw t) -> inj_view (vw t) -> shape e (dims (vw t)) -> no_noalias e = true ->
+Theorem assign_op_old_correct o t e m : wfv (vw t) -> inj_view (vw t) -> shape e (dims (vw t)) -> no_noalias e = true ->
   (let '(lo, hi) := data_range (vw t) in is_aliased e (par t) lo hi = false) ->
-  assign_op o t e m = assign_op_spec o t e m.
+  assign_op_old o t e m = assign_op_spec o t e m.
 Proof.
-  intros Hw Hinj Hs Hn Hal. unfold assign_op, assign_op_spec, assign, assign_spec.
+  intros Hw Hinj Hs Hn Hal. unfold assign_op_old, assign_op_spec, assign, assign_spec.
   destruct (data_range (vw t)) as [lo hi] eqn:Er. cbn [is_aliased].
   (* prove the loop equals the store for every suffix of the index list, remembering that indices still to
      come have not been written *)
@@ -174,6 +174,24 @@ Proof.
     - intros x Hx Hy. apply in_map_iff in Hx. destruct Hx as (t0 & <- & _). apply in_flat_map in Hy. destruct Hy as (k & Hk & Hy).
       apply in_map_iff in Hy. destruct Hy as (t1 & E & _). apply in_seq in Hk. inversion E. lia. }
   apply Hfm.
+Qed.
+
+(* the loop depends on the expression only through its values *)
+Lemma assign_loop_ext t e1 e2 : (forall m i, eval e1 m i = eval e2 m i) -> forall idxs m, assign_loop t e1 idxs m = assign_loop t e2 idxs m.
+Proof. intros H idxs. induction idxs as [|i idxs IH]; intros m; [reflexivity|]. cbn [assign_loop]. rewrite H. apply IH. Qed.
+
+(* compound assignment as repaired: t = noalias(t) op e meets the specification for EVERY e (overlapping or not):
+   when e overlaps the target the whole right-hand side is evaluated first, otherwise the in-place loop is safe *)
+Theorem assign_op_correct o t e m : wfv (vw t) -> inj_view (vw t) -> shape e (dims (vw t)) -> no_noalias e = true ->
+  assign_op o t e m = assign_op_spec o t e m.
+Proof.
+  intros Hw Hinj Hs Hn.
+  destruct (let '(lo, hi) := data_range (vw t) in is_aliased e (par t) lo hi) eqn:Eal.
+  - unfold assign_op, assign_op_spec, assign, assign_spec. destruct (data_range (vw t)) as [lo hi]. cbn [is_aliased orb]. rewrite Eal. reflexivity.
+  - rewrite <- (assign_op_old_correct o t e m Hw Hinj Hs Hn).
+    + unfold assign_op, assign_op_old, assign. destruct (data_range (vw t)) as [lo hi]. cbn [is_aliased orb]. rewrite Eal.
+      apply assign_loop_ext. intros m' i. reflexivity.
+    + destruct (data_range (vw t)) as [lo hi]. exact Eal.
 Qed.
 
 (* ---------- where: t.where(mask) = e ---------- *)
